@@ -89,7 +89,7 @@ def build_1d_case(rng, nbands=3, maxpts=3, nfmax=24):
     nf = 1 if r < 0.03 else (2 if r < 0.08 else rng.randint(3, nfmax))
     fk, f = B.gen_freq(rng, nf)
     layout = rng.choice(["none", "none", "time", "time", "time_lat"])
-    npts = 1 if layout == "none" else (rng.randint(1, maxpts) if layout == "time" else rng.choice([2, 4][:max(1, maxpts // 2)]))
+    npts = 1 if layout == "none" else (rng.randint(1, maxpts) if layout == "time" else rng.choice([2, 4, 6, 8][:max(1, maxpts // 2)]))
     pts = [gen_1d_point(rng, f) for _ in range(npts)]
     if npts == 1 and rng.random() < 0.05:
         k, p, fl = pts[0]
@@ -340,28 +340,35 @@ def check_variant(ctx, b, p, v, res0, vres, iv, rep, scales):
 
 
 # ------------------------------------------------------------------------------------------
-def run(ctx):
+def run(ctx, fixed=None):
     rng = ctx.rng
     quick = ctx.quick()
     # ---------------- stream 1: 1D spectra with given moments
-    n1 = ctx.n(120, 3000)
-    b1s = [build_1d_case(rng, nbands=3, maxpts=3 if quick else 4, nfmax=20 if quick else 30) for _ in range(n1)]
+    n1 = ctx.n(90, 2400)
+    b1s = [build_1d_case(rng, nbands=3, maxpts=6 if quick else 8, nfmax=20 if quick else 30) for _ in range(n1)]
+    if fixed is not None:
+        b1s = fixed[0]
     # ---------------- stream 2: 2D spectra on uniform grids with rotated / mirrored variants
-    n2 = ctx.n(28, 420)
+    n2 = ctx.n(18, 300)
     b2s = []
     for _ in range(n2):
         g_n = rng.choice([8, 8, 12, 16, 24, 36, 36, 48, 72, 144]) if rng.random() < 0.75 else rng.randint(8, 144)
         bb = None
         while bb is None or bb["grid"]["n"] != g_n:
-            bb = B.build_2d_case(rng, uniform_only=True, maxpts=2, nbands=2, nfmax=12 if quick else 20, nmax=g_n)
+            bb = B.build_2d_case(rng, uniform_only=True, maxpts=4, nbands=2, nfmax=12 if quick else 20, nmax=g_n)
         bb["case"]["variants"] = pick_variants(rng, g_n, quick)
         bb["case"]["extra"] = False
         b2s.append(bb)
     # ---------------- stream 3: 2D spectra on any grid (directions of non-uniform grids: definitions only)
-    n3 = ctx.n(30, 600)
-    b3s = [B.build_2d_case(rng, nbands=3, maxpts=2, nfmax=16 if quick else 24) for _ in range(n3)]
+    n3 = ctx.n(20, 500)
+    b3s = [B.build_2d_case(rng, nbands=3, maxpts=4, nfmax=16 if quick else 24) for _ in range(n3)]
+    if fixed is not None:
+        b2s, b3s = fixed[1], []
     cases = [b["case"] for b in b1s] + [b["case"] for b in b2s] + [b["case"] for b in b3s]
+    import time as _t
+    t0 = _t.time()
     impl = ctx.impl("C03.py", {"cases": cases})["results"]
+    t1 = _t.time()
     mlines = []
     for b in b1s:
         for (_, pt, _) in b["pts"]:
@@ -370,6 +377,7 @@ def run(ctx):
         for (_, E, _) in b["pts"]:
             mlines.append(B.model_line_2d(b["f"], b["grid"]["th"], E, b["bands"]))
     mod = ctx.model(mlines)
+    ctx.extra["timing_s"] = {"implementation": round(t1 - t0, 1), "model": round(_t.time() - t1, 1)}
     mi = 0
     # ---- stream 1
     for ci, b in enumerate(b1s):
@@ -377,9 +385,12 @@ def run(ctx):
         f = b["f"]
         nb = len(b["bands"])
         ctx.tally("1d-layout:" + b["layout"])
-        for p, (kind, pt, flags) in enumerate(b["pts"]):
-            m = B.parse_1d(mod[mi], nb)
+        mall = []
+        for _ in b["pts"]:
+            mall.append(B.parse_1d(mod[mi], nb))
             mi += 1
+        for p, (kind, pt, flags) in enumerate(b["pts"]):
+            m = mall[p]
             rep = replay_1d(b, p)
             ctx.tally("1d-moments:" + kind)
             for fl in flags:
@@ -405,16 +416,27 @@ def run(ctx):
                 ctx.tally("band:" + bk)
                 if errs:
                     peak_keys = {"pidx", "pfreq", "pdir", "pspr"}
-                    if set(errs) <= peak_keys and isnan(mb["pidx"]) and all(e_["error"] == "ValueError" for e_ in errs.values()):
+                    # xarray's argmax raises for the whole batch when one member is all-NaN (outside the premise of
+                    # the property; DESIGN section 6, C04): accepted exactly when the model has no peak for a member
+                    if (set(errs) <= peak_keys and any(isnan(mm["bulk"][bi]["pidx"]) for mm in mall)
+                            and all(e_["error"] == "ValueError" for e_ in errs.values())):
                         ctx.tally("1d-edge:all-NaN-energy-raises-in-argmax")
                         for k in peak_keys:
                             ib[k] = NAN
+                            mb = dict(mb)
+                            mb[k] = NAN
                     else:
                         ctx.oracle_fail("bulk parameter raised %s" % errs, rb)
                         continue
+                # a NaN energy inside the band of a 1D spectrum is outside the quantifier of the property (the code
+                # returns NaN band means there, the model too); the band means are then not compared, only counted
+                nan_e = any(isnan(pt["e"][i]) for i in idx)
+                if nan_e:
+                    ctx.tally("1d-edge:NaN-energy-in-band:band-means-%s" % ("NaN" if isnan(ib["ma1"]) else "finite"))
                 ok = B.compare_bulk(ctx, "1D spectrum", f, pt["e"], mb, ib, lo, hi, rb,
-                                    lambda d, rb=rb: ctx.disagree(d, rb, is_property_failure=True), a1=pt["a1"], b1=pt["b1"])
-                if ok:
+                                    lambda d, rb=rb: ctx.disagree(d, rb, is_property_failure=True), a1=pt["a1"], b1=pt["b1"],
+                                    skip_means=nan_e)
+                if ok and not nan_e:
                     valid = all((not fin(x)) or (not fin(y)) or x * x + y * y <= 1 for x, y in zip(pt["a1"], pt["b1"]))
                     def_oracles(ctx, f, pt["e"], pt["a1"], pt["b1"], ib, lo, hi, rb, valid)
             if ci < 2 and p == 0:
@@ -486,6 +508,30 @@ def run(ctx):
                 ctx.sample({"2d": {"grid": g["kind"], "ndir": g["n"], "layout": b["layout"], "density": dk,
                                    "variants": [str(v) for v in b["case"]["variants"]][:8],
                                    "mean_direction impl/model": [B.bulk_at(res["bulk2d"][0], 0)[0]["mdir"], m["bulk"][0]["mdir"]]}})
+
+
+def replay(ctx, obj):
+    """--replay FILE: re-evaluate one recorded input (single point)"""
+    inp = obj.get("input", obj)
+    op = inp.get("op")
+    if op == "FrequencySpectrum":
+        f = [float(v) for v in inp["frequency"]]
+        pt = {k: [NAN if v is None else float(v) for v in inp[{"e": "variance_density"}.get(k, k)]] for k in ("e", "a1", "b1", "a2", "b2")}
+        bands = [(0.0, INF, "default")]
+        if inp.get("band"):
+            bands.append((float(inp["band"][0]), float(inp["band"][1]), "replay"))
+        case = {"op": "spec1d", "f": B.hexrow(f), "layout": "none", "pts": [{k: B.hexrow(v) for k, v in pt.items()}],
+                "bands": [[C.fx(b[0]), C.fx(b[1])] for b in bands]}
+        run(ctx, fixed=([{"f": f, "layout": "none", "pts": [("replay", pt, [])], "bands": bands, "case": case}], []))
+    elif op == "FrequencyDirectionSpectrum":
+        v = inp.get("variant")
+        b = B.build_from_replay(inp, variants=[v] if v else [])
+        if not v and b["grid"]["uniform"]:
+            b["case"]["variants"] = [{"rot": 1}, {"rot": b["grid"]["n"] // 3}, {"mirror": "plain"}]
+        b["case"]["extra"] = False
+        run(ctx, fixed=([], [b]))
+    else:
+        print("replay: unknown input kind %r" % op)
 
 
 READY = False
